@@ -72,6 +72,23 @@ func wrapFor(t types.Type) (string, bool) {
 	return "", false
 }
 
+func floatKind(t types.Type) int { // 0 = not a float, 32, 64
+	if t == nil {
+		return 0
+	}
+	b, ok := t.Underlying().(*types.Basic)
+	if !ok {
+		return 0
+	}
+	switch b.Kind() {
+	case types.Float32:
+		return 32
+	case types.Float64, types.UntypedFloat:
+		return 64
+	}
+	return 0
+}
+
 func zlit(v constant.Value) string {
 	s := v.ExactString()
 	if strings.HasPrefix(s, "-") {
@@ -118,9 +135,20 @@ func expr(e ast.Expr) string {
 		case token.GTR:
 			return "(" + y + " <? " + x + ")"
 		case token.EQL:
+			if fk := floatKind(info.Types[e.X].Type); fk == 64 {
+				return "(f64_eq " + x + " " + y + ")"
+			} else if fk != 0 {
+				return fail("float32 comparison")
+			}
 			return "(" + x + " =? " + y + ")"
 		case token.NEQ:
+			if floatKind(info.Types[e.X].Type) != 0 {
+				return fail("float comparison")
+			}
 			return "(negb (" + x + " =? " + y + "))"
+		}
+		if floatKind(info.Types[e.X].Type) != 0 {
+			return fail("float operation %s", e.Op)
 		}
 		if !isInt {
 			return fail("binary op %s at non-integer type %s", e.Op, tv.Type)
@@ -162,6 +190,48 @@ func expr(e ast.Expr) string {
 		}
 		return fail("unary op %s", e.Op)
 	case *ast.CallExpr:
+		if ftv, ok := info.Types[e.Fun]; ok && ftv.IsType() && len(e.Args) == 1 &&
+			(floatKind(ftv.Type) != 0 || floatKind(info.Types[e.Args[0]].Type) != 0) { // conversions involving floats
+			to, from := floatKind(ftv.Type), floatKind(info.Types[e.Args[0]].Type)
+			arg := expr(e.Args[0])
+			toInt, _ := wrapFor(ftv.Type)
+			fromInt, _ := wrapFor(info.Types[e.Args[0]].Type)
+			switch {
+			case to == from:
+				return arg
+			case to == 32 && from == 64:
+				return "(narrow " + arg + ")"
+			case to == 64 && from == 32:
+				return "(widen " + arg + ")"
+			case from == 64 && toInt == "swrap 64" && ftv.Type.String() == "int64":
+				return "(trunc64 " + arg + ")"
+			case to == 64 && fromInt == "swrap 64" && info.Types[e.Args[0]].Type.String() == "int64":
+				return "(of_int64 " + arg + ")"
+			}
+			return fail("conversion %s -> %s", info.Types[e.Args[0]].Type, ftv.Type)
+		}
+		if sel, ok := e.Fun.(*ast.SelectorExpr); ok && len(e.Args) == 0 {
+			if id, ok := sel.X.(*ast.Ident); ok && info.Types[sel.X].Type != nil && info.Types[sel.X].Type.String() == "time.Time" {
+				// a time.Time is modelled as the pair (seconds since the epoch, nanoseconds in [0,1e9))
+				switch sel.Sel.Name {
+				case "Unix":
+					return coqName(id.Name) + "_sec"
+				case "Nanosecond":
+					return coqName(id.Name) + "_nsec"
+				case "IsZero":
+					return "(time_is_zero " + coqName(id.Name) + "_sec " + coqName(id.Name) + "_nsec)"
+				}
+				return fail("time.Time method %s", sel.Sel.Name)
+			}
+		}
+		if sel, ok := e.Fun.(*ast.SelectorExpr); ok && len(e.Args) == 1 {
+			if id, ok := sel.X.(*ast.Ident); ok && id.Name == "math" {
+				switch sel.Sel.Name {
+				case "Float32bits", "Float64bits", "Float32frombits", "Float64frombits":
+					return expr(e.Args[0]) // floats are their bit patterns
+				}
+			}
+		}
 		if ftv, ok := info.Types[e.Fun]; ok && ftv.IsType() { // conversion T(x)
 			w, ok := wrapFor(ftv.Type)
 			if !ok || len(e.Args) != 1 {
@@ -200,6 +270,19 @@ func stmts(l []ast.Stmt) string {
 	}
 	switch s := l[0].(type) {
 	case *ast.ReturnStmt:
+		if len(s.Results) == 2 { // (value, error)
+			if id, ok := s.Results[1].(*ast.Ident); ok && id.Name == "nil" {
+				return "(Ok " + expr(s.Results[0]) + ")"
+			}
+			if id, ok := s.Results[0].(*ast.Ident); ok && id.Name == "nil" {
+				if call, ok := s.Results[1].(*ast.CallExpr); ok {
+					if f, ok := call.Fun.(*ast.Ident); ok && f.Name == "newCodecError" {
+						return "(Err ECodec)"
+					}
+				}
+			}
+			return fail("two-value return of an unsupported shape")
+		}
 		if len(s.Results) != 1 {
 			return fail("multi-value return")
 		}
@@ -279,7 +362,7 @@ var leafWhitelist = []string{
 	"intTag", "longTag", "doubleTag", "stringShortTag", "stringMiddleTag", "stringChunkTag", "stringTag", "stringEndTag",
 	"binaryShortTag", "binaryChunkTag", "binaryEndTag", "binaryTag", "dateTag", "objectLenTag",
 	"listFixedTypedLenTag", "typedListTag", "listFixedUntypedLenTag", "untypedListTag", "refTag",
-	"encodeInt", "encodeLong",
+	"encodeInt", "encodeLong", "encodeDouble", "encodeDate",
 }
 
 func writeIfChanged(path string, content []byte) {
@@ -358,7 +441,7 @@ func main() {
 	// ---- GoLeaf.v
 	b.Reset()
 	fmt.Fprintln(&b, "(* GENERATED by go2v from the Go source - do not edit *)")
-	fmt.Fprintln(&b, "From Coq Require Import ZArith List Bool.\nFrom GH Require Import Base.GoSem Gen.GoConsts.\nImport ListNotations.\nOpen Scope Z_scope.\n")
+	fmt.Fprintln(&b, "From Coq Require Import ZArith List Bool.\nFrom GH Require Import Base.GoSem Base.Result Base.FloatBits Base.TimeSem Gen.GoConsts.\nImport ListNotations.\nOpen Scope Z_scope.\n")
 	decls := map[string]*ast.FuncDecl{}
 	for _, f := range files {
 		for _, d := range f.Decls {
@@ -383,7 +466,11 @@ func main() {
 		params := []string{}
 		for _, p := range fd.Type.Params.List {
 			for _, id := range p.Names {
-				params = append(params, "("+coqName(id.Name)+" : Z)")
+				if tv, ok := info.Types[p.Type]; ok && tv.Type.String() == "time.Time" {
+					params = append(params, "("+coqName(id.Name)+"_sec "+coqName(id.Name)+"_nsec : Z)")
+				} else {
+					params = append(params, "("+coqName(id.Name)+" : Z)")
+				}
 			}
 		}
 		body := stmts(fd.Body.List)
